@@ -87,6 +87,15 @@ class Seams:
     def save_data_time_step(self):
         self._sim.on_save(self, super().save_data_time_step)
 
+    def before_nonlinear_loop(self):
+        super().before_nonlinear_loop()
+        if getattr(self._sim, "predictor", False):
+            es = self.equation_system
+            guess = es.get_variable_values(time_step_index=0)
+            es.set_variable_values(guess + 1e-3 * (1.0 + np.abs(guess)), iterate_index=0)
+            self._sim.iterates = [es.get_variable_values(iterate_index=0)]  # the window of iterates starts from the guess
+            self._sim.tr.probe("predictor_initial_guess")
+
 
 def _damage_base():
     """Momentum balance with the shipped fracture-damage mixins (porepy.models.fracture_damage): the one model family
@@ -206,6 +215,8 @@ class DriverSim:
             # residual-based convergence criterion on/off: the Newton step assembles the residual after the update only
             # if one of the two residual tolerances is finite (another code path through the loop)
             self.res_tol = ch.choice([np.inf, np.inf, 1e-6])
+            # a model may start each solve from a predictor (extrapolated initial guess) instead of the last accepted values
+            self.predictor = ch.flag(1, 4)
             # environment (swarm): enabled fault kinds, rate, horizon, aiming
             kinds = ["diverge", "stall", "nan", "blowup"]
             self.kinds = [k for k in kinds if ch.flag(2, 3)] or [ch.choice(kinds)]
@@ -214,7 +225,7 @@ class DriverSim:
             self.aim = ch.flag()
         self.tr.emit("config", {"family": self.family, "cell": self.cell_size, "fracs": self.fracs, "ts_depth": self.ts_depth, "it_depth": self.it_depth,
                                 "tm": {k: (list(v) if isinstance(v, (list, tuple)) else v) for k, v in self.tm_kw.items()},
-                                "max_iter": self.max_iter, "div_tol": float(self.div_tol), "res_tol": float(self.res_tol), "kinds": self.kinds, "p_fail": self.p_fail,
+                                "max_iter": self.max_iter, "div_tol": float(self.div_tol), "res_tol": float(self.res_tol), "predictor": self.predictor, "kinds": self.kinds, "p_fail": self.p_fail,
                                 "horizon": self.horizon, "export": self.export})
 
     def build(self, folder="viz", restart_options=None, tm=None):
@@ -454,13 +465,24 @@ class DriverSim:
         def c09_raise():
             self.clock.raised(exc, dt)
         self.guard("C09", c09_raise)
+
+        def c10_raise():
+            # C10 quantifies over failure patterns "within the time manager's recomputation budget": a run that the
+            # failure handling aborts although the budget is not exhausted (and dt is not at dt_min) does not end at the
+            # final time.  Same shadow counters as C09's clause, reported under C10's own name.
+            tm = model.time_manager
+            budget = self.clock.consec_fail >= tm.recomp_max
+            at_min = (not tm.is_constant) and dt == tm.dt_min_max[0]
+            if not (budget or at_min):
+                self._v("C10", "failure_handling_completes", f"the failure handling aborted the run with {exc!r} after {self.clock.consec_fail} consecutive failures (recomp_max={tm.recomp_max}, dt={dt!r}, dt_min={tm.dt_min_max[0]!r}): within the recomputation budget the run must go on", "aborted_within_budget")
+        self.guard("C10", c10_raise)
         self._guard_history(model, f"after the failure handling raised at t={t_att!r}")
 
 
 # --------------------------------------------------------------------------------------
 PROBES = ["fault_at_newton_iteration_1", "failure_right_after_failure", "failure_on_schedule_landing_step", "failure_on_first_step",
           "failure_on_final_step", "depth3_window_filled", "budget_exhausted_raise", "fail_at_dt_min_raise", "real_divergence_or_nonconvergence",
-          "step_back_S5", "run_reached_final_time", "attempt_cap_reached", "config_rejected", "full_history_ge_3_steps"]
+          "step_back_S5", "run_reached_final_time", "attempt_cap_reached", "config_rejected", "full_history_ge_3_steps", "predictor_initial_guess"]
 
 
 def make_run(owner: str, families=("flow",)):
